@@ -455,6 +455,21 @@ def fixed_variant():
     return _VARIANT["fx"]
 
 
+def masked_fixed_variant():
+    """True when the working tree reports the masked-TypeError witness (A:1,B:3,C) at precision 0.5
+    as UltrametricityError (error message no longer adds a None length)."""
+    if "mfix" not in _VARIANT:
+        lf = lambda i, x, l: {"id": i, "taxon": x, "label": None, "len": l, "kids": []}
+        w = {"id": 0, "taxon": None, "label": None, "len": None, "kids": [lf(1, 0, 1024), lf(2, 1, 3072), lf(3, 2, None)]}
+        tree, _ = build(w)
+        try:
+            tree.calc_node_ages(ultrametricity_precision=0.5)
+            _VARIANT["mfix"] = False
+        except Exception as e:
+            _VARIANT["mfix"] = cerr_enum(e) == "Ultra"
+    return _VARIANT["mfix"]
+
+
 # ----------------------------------------------------------------------------------------------
 # Coq rendering
 # ----------------------------------------------------------------------------------------------
@@ -509,8 +524,8 @@ def to_coq(case, obs):
         mn = 0 if case["mn_default"] else case["mn"]
         sl = obs["setlen"]
         slc = "(Err OtherErr)" if sl is None else c_res(sl, trees.c_tree)
-        return "(CaseAges %s %s %s %s %s %s %s %s %s)" % (cbool(fixed_variant()), t, cfg, cbool(case["io"]), o, so,
-                                                       copt(mn, cz), cbool(case["eon"]), slc)
+        return "(CaseAges %s %s %s %s %s %s %s %s %s %s)" % (cbool(fixed_variant()), cbool(masked_fixed_variant()), t, cfg,
+                                                          cbool(case["io"]), o, so, copt(mn, cz), cbool(case["eon"]), slc)
     if case["kind"] == "depth":
         lin = clist([cpair(cz(x), c_res(r, cz)) for x, r in obs["lineages"]])
         return "(CaseDepth %s %s %s %s %s %s %s %s %s %s)" % (
@@ -524,8 +539,9 @@ def to_coq(case, obs):
     sac = [cpair(NORM_COQ[nm], c_sobs(o)) for nm, o in zip(NORMS, obs["sackin"])]
     sac.append(cpair("NTrue", c_sobs(obs["sackin_default"])))        # default normalize=True
     gam = clist([cpair(c_prec(p), c_gobs(o)) for p, o in zip(case["gprecs"], obs["gamma"])])
-    return "(CaseStats %s %s %s %s %s %s %s %s %s)" % (cbool(fixed_variant()), t, tr, c_sobs(obs["b1"]), clist(col),
-                                                    clist(sac), c_sobs(obs["nbar"]), c_sobs(obs["treeness"]), gam)
+    return "(CaseStats %s %s %s %s %s %s %s %s %s %s)" % (cbool(fixed_variant()), cbool(masked_fixed_variant()), t, tr,
+                                                       c_sobs(obs["b1"]), clist(col), clist(sac), c_sobs(obs["nbar"]),
+                                                       c_sobs(obs["treeness"]), gam)
 
 
 # ----------------------------------------------------------------------------------------------
@@ -885,6 +901,8 @@ def run(tier, seed, replay=None):
         "sqrt(1/(12(n-2))) are taken from Python's math library (the model checks pow15^2 = n^3, sqrt_f^2*12(n-2) = 1 and the "
         "Euler constant numerically; ln values are trusted)",
         "set_node_age_fn is not modelled; stale `age` attributes (pybus_harvey_gamma reuses them) are outside the model: every call is on a fresh tree",
+        "after an exception leaves calc_node_ages only its class and the number of nodes already aged (post-order prefix) are compared, not the lengths coerced so far",
+        "the model has two forms of the ultrametricity test (present first-child test / proposed global test); the harness picks the one the working tree implements by replaying the F16 witness",
     ]
     if replay:
         import json
@@ -897,14 +915,17 @@ def run(tier, seed, replay=None):
     ctx.notes.append("ultrametricity test of the working tree: %s"
                      % ("global (repaired form, model calc_node_ages_fix)" if fixed_variant()
                         else "local to first-child paths (model calc_node_ages; F16 present)"))
+    ctx.notes.append("error message of the working tree: %s"
+                     % ("no longer adds a None length (masked-TypeError repaired)" if masked_fixed_variant()
+                        else "adds the length of later siblings (TypeError masks UltrametricityError when one is None)"))
     ok = core.proof_stage(ctx, ["Props/C17.vo"], gen_needed=("__none__",))
     if not ok:
         core.broken_proof(ctx, search)
-    n = 600 if tier == "quick" else 8000
+    n = 800 if tier == "quick" else 20000
     maxl = 10 if tier == "quick" else 24
     cases = fixed_cases() + [gen_case(ctx.rng, maxl) for _ in range(n)]
     if tier == "thorough":
-        cases.extend(exhaustive_cases(5))
+        cases.extend(exhaustive_cases(6))
     for c in cases:
         ctx.count("kind:" + c["kind"])
         ctx.count("gen:" + c["gen"].split("+")[0])
@@ -930,5 +951,5 @@ def run(tier, seed, replay=None):
                            "precision-1/precision/precision+1 units, random non-ultrametric, None / negative lengths, "
                            "unifurcations, polytomies) x 18 precision values incl. None/False/negative/default x forcing options; "
                            "depth cases query num_lineages_at at node depths +-1 unit; stats cases cover every normalisation and "
-                           "the child-reversed tree; thorough adds every ordered shape with <= 5 leaves; a case is non-trivial when "
+                           "the child-reversed tree; thorough adds every ordered shape with <= 6 leaves; a case is non-trivial when "
                            "the tree has >= 4 nodes; distinct by full case content" % maxl)
